@@ -564,6 +564,7 @@ func genDvAct(rng *rand.Rand, x *dvExec) dvAct {
 
 // TestDvGen: VERIF_DVN routers; topologies: every connected graph for n <= 4 (cycled), random connected otherwise.
 func TestDvGen(t *testing.T) {
+	defer watchDriver("TestDvGen")()
 	log.SetLevel(log.FatalLevel)
 	n := envInt("VERIF_DVN", 4)
 	w := newTrace(fmt.Sprintf("dv_n%d.ndjson", n))
@@ -608,6 +609,7 @@ func TestDvGen(t *testing.T) {
 
 // TestDvSched: replays a stored segment ($VERIF_REPLAY): only the inputs of the rows are used.
 func TestDvSched(t *testing.T) {
+	defer watchDriver("TestDvSched")()
 	log.SetLevel(log.FatalLevel)
 	var sched []dvAct
 	readNdjson(os.Getenv("VERIF_REPLAY"), func(line []byte) {
